@@ -87,6 +87,10 @@ struct Case {
     /// after every key the host issues (otherwise before)
     #[serde(default)]
     store_history: u8,
+    /// until a key is attested the host hands the SAME pending key out again on every acquire (as the in-tree server mock
+    /// does), also to the restarted agent: a crash in the middle of storing it must not get in the way of storing it again
+    #[serde(default)]
+    reissue: bool,
 }
 
 struct Env {
@@ -181,6 +185,9 @@ fn prepare(env: &Env, c: &Case, key_dir: &Path) -> Result<(), String> {
     let _ = std::fs::remove_dir_all(key_dir);
     std::fs::create_dir_all(key_dir).map_err(|e| e.to_string())?;
     reset_host(env, key_dir);
+    if c.reissue {
+        env.host.with(|s| s.reissue_pending = true);
+    }
     if c.scenario == Scenario::StoreBlockedFirst {
         let _ = std::fs::remove_dir_all(key_dir);
         std::fs::write(key_dir, b"not a directory").map_err(|e| e.to_string())?;
@@ -491,32 +498,36 @@ fn main() {
         }
     } else {
         // (scenario, fault script) pairs: all scenarios fault-free; the fresh latch and the rotation with every single-fault script
-        let mut pairs: Vec<(Scenario, HostFaults, u8)> = scenarios.iter().map(|s| (*s, HostFaults::None, 0u8)).collect();
+        let mut pairs: Vec<(Scenario, HostFaults, u8, bool)> = scenarios.iter().map(|s| (*s, HostFaults::None, 0u8, false)).collect();
         for f in &fault_scripts[1..] {
-            pairs.push((Scenario::FreshLatch, f.clone(), 0));
+            pairs.push((Scenario::FreshLatch, f.clone(), 0, false));
             if th {
-                pairs.push((Scenario::Rotation, f.clone(), 0));
-                pairs.push((Scenario::LocalKeyGarbage, f.clone(), 0));
+                pairs.push((Scenario::Rotation, f.clone(), 0, false));
+                pairs.push((Scenario::LocalKeyGarbage, f.clone(), 0, false));
             }
         }
         // key directories with a history: files of earlier re-keys whose names sort before / after the keys of this run
         let hist = |k: u64| -> u8 { 1 + (h64(&(params.seed, "history", k)) % 12) as u8 };
-        pairs.push((Scenario::FreshLatch, HostFaults::None, (5 + hist(1) % 8) | 16));
-        pairs.push((Scenario::Rotation, HostFaults::None, hist(2) | 16));
-        pairs.push((Scenario::RestartWithKeyOnDisk, HostFaults::None, hist(3) | 16));
-        pairs.push((Scenario::FreshLatch, HostFaults::None, 5 + hist(4) % 8));
+        pairs.push((Scenario::FreshLatch, HostFaults::None, (5 + hist(1) % 8) | 16, false));
+        pairs.push((Scenario::Rotation, HostFaults::None, hist(2) | 16, true));
+        pairs.push((Scenario::RestartWithKeyOnDisk, HostFaults::None, hist(3) | 16, false));
+        pairs.push((Scenario::FreshLatch, HostFaults::None, 5 + hist(4) % 8, false));
+        // the host keeps handing out the same pending key until it is attested
+        pairs.push((Scenario::FreshLatch, HostFaults::None, 0, true));
+        pairs.push((Scenario::LocalKeyGarbage, HostFaults::None, 0, true));
         if th {
             for (k, sc) in scenarios.iter().enumerate() {
-                pairs.push((*sc, HostFaults::None, hist(10 + k as u64) | 16));
-                pairs.push((*sc, HostFaults::AttestLatchedReplyLost, hist(20 + k as u64)));
+                pairs.push((*sc, HostFaults::None, hist(10 + k as u64) | 16, k % 2 == 0));
+                pairs.push((*sc, HostFaults::AttestLatchedReplyLost, hist(20 + k as u64), k % 2 == 1));
+                pairs.push((*sc, HostFaults::AcquireErrorFirst, 0, true));
             }
         }
-        for (pi, (sc, f, history)) in pairs.iter().enumerate() {
+        for (pi, (sc, f, history, reissue)) in pairs.iter().enumerate() {
             if pi as u32 % params.workers != params.worker {
                 continue;
             }
             // dry run under strace without injection: how many matching syscalls, and where the first status poll starts
-            let dry = Case { scenario: *sc, faults: f.clone(), kill_at: None, kill_call: None, store_history: *history };
+            let dry = Case { scenario: *sc, faults: f.clone(), kill_at: None, kill_call: None, store_history: *history, reissue: *reissue };
             let key_dir = env.work.join("keys");
             if let Err(e) = prepare(&env, &dry, &key_dir) {
                 stats.inconclusive.push(format!("{:?}/{:?}: {}", sc, f, e));
@@ -635,7 +646,7 @@ fn main() {
                         None => continue,
                     },
                 };
-                plan.push(Case { scenario: *sc, faults: f.clone(), kill_at: Some(n), kill_call: Some(call), store_history: *history });
+                plan.push(Case { scenario: *sc, faults: f.clone(), kill_at: Some(n), kill_call: Some(call), store_history: *history, reissue: *reissue });
             }
         }
     }
@@ -644,6 +655,9 @@ fn main() {
         stats.class(&format!("scenario:{:?}", c.scenario));
         if c.store_history & 15 != 0 {
             stats.class(if c.store_history & 15 >= 5 { "key-directory:holds->=5-files-of-earlier-re-keys" } else { "key-directory:holds-1-4-files-of-earlier-re-keys" });
+        }
+        if c.reissue {
+            stats.class("host:hands-the-same-pending-key-out-again-until-attested");
         }
         if c.faults != HostFaults::None {
             stats.class(&format!("host-faults:{:?}", c.faults));
